@@ -122,7 +122,7 @@ def c17(tier, seed):
         for i in range(shards):
             jobs.append(Job("%s-%d" % (name, i), H, [name, L, i, shards], wraps=W, weight=w))
     fam("url", 7 + X, 2, 2); fam("b64", 7 + X, 2, 2); fam("hex", 8 + X, 1, 1); fam("query", 7 + X, 2, 3)
-    fam("ini", 5 + X, 16 if X else 6, 8); fam("inifile", 5 + X, 4 if X else 1, 3)
+    fam("ini", 5 + X, 16 if X else 6, 8); fam("inifile", 5 + X, 16 if X else 8, 3)
     fam("apache0", 5 + X, 16 if X else 6, 8); fam("apache3", 5 + X, 16 if X else 6, 8)
     fam("longline", 0, 1, 4)
     return jobs
@@ -189,6 +189,9 @@ def tree_jobs(tier, which):
             jobs.append(Job("tree-walk-U3-d%d-e%d" % (22 if X else 14, ep), H, ["walk", 3, 22 if X else 14, ep], wraps=VA_WRAPS, weight=30 if X else 8))
         for ep in (1, 254):
             jobs.append(Job("tree-walk-U4-d%d-e%d" % (13 if X else 9, ep), H, ["walk", 4, 13 if X else 9, ep], wraps=VA_WRAPS, weight=40 if X else 8))
+        # binary keys of differing lengths (prefix pairs), probes that are prefixes / extensions of keys
+        jobs.append(Job("tree-walk-bin-U6-d%d" % (8 if X else 7), H, ["walk", 6, 8 if X else 7, 1, 1], wraps=VA_WRAPS, weight=30 if X else 8))
+        jobs.append(Job("tree-walk-bin-U7-d%d" % (7 if X else 6), H, ["walk", 7, 7 if X else 6, 1, 1], wraps=VA_WRAPS, weight=30 if X else 6))
         if X:
             for ep in (1, 254):
                 jobs.append(Job("tree-walk-U5-d10-e%d" % ep, H, ["walk", 5, 10, ep], wraps=VA_WRAPS, weight=40))
@@ -231,7 +234,7 @@ def c03(tier, seed):
 
 
 @prop("C04", "model_checking",
-      "same search as C03; from every state find_nearest for every probe: floor semantics (equal key, else greatest smaller, "
+      "same search as C03, plus a depth-bounded search over 6-7 binary keys of differing lengths (prefix pairs) with probes that are keys, prefixes of keys and extensions of keys; from every state find_nearest for every probe: floor semantics (equal key, else greatest smaller, "
       "else smallest), ENOENT on empty, answer compared with a model that only knows the key set (history independence), "
       "termination by a comparator-call budget of 8(n+2); continuing with getnext visits every key exactly once when no walk "
       "was left unfinished, and never a key twice otherwise",
